@@ -1,4 +1,6 @@
 #include "plugins.h"
+#include <chrono>
+#include <thread>
 #include "shim.h"
 
 #include "oomd/OomdContext.h"
@@ -196,6 +198,8 @@ class VpAction : public ScriptedBase {
     e.s2 = id_;
     e.a = serial_;
     e.j["kind"] = kind_;
+    // an action that takes (virtual) time before it answers
+    if (s.isObject() && s.get("sleep_ms", 0).asInt64() > 0) std::this_thread::sleep_for(std::chrono::milliseconds(s.get("sleep_ms", 0).asInt64()));
     e.j["ret"] = retName(r);
     e.j["actx"] = actxJson(ctx.getActionContext());
     e.j["rcg"] = ctx.getRulesetCgroup() ? Json::Value(rcg) : Json::Value();
